@@ -142,7 +142,7 @@ func (g *Gen) inputRaw(n *Node) IVal {
 		case c < 50:
 			return IVal{Kind: "int32", I: int64(r.Intn(16) - 3)}
 		case c < 65:
-			return strV(Pick(r, []string{"5", "12", "-3", "+4", "007", "3000000000", "9223372036854775808", "1.5", "abc", "1e3", " 5", "0x10", "1_000"}))
+			return strV(Pick(r, []string{"5", "12", "-3", "+4", "007", "010", "-0012", "0b11", "3000000000", "9223372036854775808", "1.5", "abc", "1e3", " 5", "0x10", "1_000"}))
 		case c < 80:
 			return f64V(Pick(r, []float64{5, 6.5, -2.75, 3e9, 1e19, math.NaN(), math.Inf(1), -0.0, 9223372036854775807, -9223372036854775808, 2147483648}))
 		case c < 85:
